@@ -54,7 +54,8 @@ Record case := {
   c_names : list (str * str);
   c_dst : str; c_inpkg : bool; c_struct : str;
   c_tmpl : tmpl; c_resets : bool;
-  c_obs : list shape
+  c_obs : list shape;
+  c_obs_tps : list str          (* the names in the type parameter list of the mock struct, as written in the file *)
 }.
 
 Definition case_ctx (c : case) : ctx :=
@@ -77,10 +78,25 @@ Definition model_shapes (c : case) : option (list shape) :=
       end
   end.
 
+(* the type parameter names of the mock type: Generate reaches typeParams after the methods of the
+   interface, with the registry they left behind.  (The case is modelled as the only interface of its
+   file; the qualifiers of the other interfaces' imports are visible in the real scope too, the
+   generator keeps blank parameters' constraints away from them.) *)
+Definition model_tparams (c : case) : option (list str) :=
+  match spec_set c with
+  | Err _ => None
+  | Ok ms =>
+      let cx := case_ctx c in
+      let i := mock_iface (c_name c) (c_struct c) (c_tps c) ms in
+      let r0 := {| dst := c_dst c; inpkg := c_inpkg c; imports := [] |} in
+      let r1 := fst (methods_data cx (map (fun it => lname (fst it)) (if_tparams i)) r0 (if_methods i)) in
+      printed_tparams cx r1 (c_tps c)
+  end.
+
 Definition check_case (c : case) : bool :=
-  match model_shapes c with
-  | Some l => list_eqb shape_eqb l (c_obs c)
-  | None => false
+  match model_shapes c, model_tparams c with
+  | Some l, Some tp => list_eqb shape_eqb l (c_obs c) && list_eqb seqb tp (c_obs_tps c)
+  | _, _ => false
   end.
 
 Fixpoint mismatches_from (i : nat) (cs : list case) : list nat :=
